@@ -270,6 +270,7 @@ func (e *Engine) checkQueuePreemption(st *Step, a *world.Alloc, app *world.App, 
 	// preempted and of the announced victims below the queue. Certainly false only when it fails for every guaranteed
 	// queue of the path.
 	hasGuarantee, atOrAbove := false, true
+	victimsFreeReachedType := false
 	pathDetail := ""
 	for _, q := range pathOf(pre, leaf) {
 		if len(q.Guaranteed) == 0 {
@@ -294,6 +295,9 @@ func (e *Engine) checkQueuePreemption(st *Step, a *world.Alloc, app *world.App, 
 				judged++
 				if q.Allocated[t]-q.Preempting[t]-below[t] >= g {
 					reached++
+					if below[t] > 0 {
+						victimsFreeReachedType = true
+					}
 				}
 			}
 		}
@@ -305,7 +309,12 @@ func (e *Engine) checkQueuePreemption(st *Step, a *world.Alloc, app *world.App, 
 	if !hasGuarantee {
 		e.violate("C08", "preemption-without-guarantee", "", fmt.Sprintf("queue preemption for ask %s although no queue on the path of %s has guaranteed resources", a.Key, leaf))
 	} else if atOrAbove {
-		e.violate("C08", "asker-queue-not-under-guarantee", "", fmt.Sprintf("queue preemption for ask %s %s although every guaranteed queue on the path of %s has reached its guaranteed share in every type the ask needs even with the victims removed:%s", a.Key, a.Res, leaf, pathDetail))
+		ctx := ""
+		if !victimsFreeReachedType {
+			// the announced victims free nothing of the guaranteed types that have been reached
+			ctx = "/victims-free-other-types"
+		}
+		e.violate("C08", "asker-queue-not-under-guarantee", ctx, fmt.Sprintf("queue preemption for ask %s %s although every guaranteed queue on the path of %s has reached its guaranteed share in every type the ask needs even with the victims removed:%s", a.Key, a.Res, leaf, pathDetail))
 	}
 	// victim queues above guarantee
 	byLeaf := map[string][]*world.Alloc{}
